@@ -84,6 +84,35 @@ def run_case(c):
             except Exception as ex:
                 ev["raised"] = True; ev["exc"] = repr(ex)[:200]
                 evs.append(ev)
+        # anisotropic two-dimensional distribution: per-axis sample counts / limits differ, so the axis order of the joint weights shows
+        ev = {"k": "joint", "case": c, "raised": False, "shape": [], "weights_shape": [], "joint_ppb": 0}
+        try:
+            cen, s, L = F(c["c"]), F(c["sigma"]), F(c["limit"])
+            g = D.gaussian((s, 2 * s), (c["n"], c["n"] + 2), dimension=2, center=(cen, -cen), sampling_limit=(L, L + 1.0), normalize=c["normalize"])
+            w0, w1 = (np.asarray(d.weights, float) for d in g.distributions)
+            W = np.asarray(g.weights, float)
+            ev["shape"], ev["weights_shape"] = [int(x) for x in g.shape], [int(x) for x in W.shape]
+            if list(W.shape) == [len(w0), len(w1)]:
+                ev["joint_ppb"] = ppb(float(np.abs(W - np.multiply.outer(w0, w1)).max() / np.abs(W).max()))
+            evs.append(ev)
+        except Exception as ex:
+            ev["raised"] = True; ev["exc"] = repr(ex)[:200]
+            evs.append(ev)
+        # an existing distribution is not changed by what is created afterwards (same sample count and limit, the other normalisation)
+        ev = {"k": "stable", "case": c, "raised": False, "changed_ppb": 0}
+        try:
+            cen, s, L = F(c["c"]), F(c["sigma"]), F(c["limit"])
+            g1 = D.gaussian(s, c["n"], center=cen, sampling_limit=L, normalize=c["normalize"])
+            v0, w0 = np.array(g1.values, float), np.array(g1.weights, float)
+            other = D.gaussian(2 * s, c["n"], center=0.0, sampling_limit=L, normalize="amplitude" if c["normalize"] == "intensity" else "intensity")
+            _ = (other.weights, (-other).weights, [b for b in other.divide(1, lazy=False)] if c["n"] >= 1 else None)
+            dv = float(np.abs(np.asarray(g1.values, float) - v0).max())
+            dw = float(np.abs(np.asarray(g1.weights, float) - w0).max() / max(float(np.abs(w0).max()), 1e-30))
+            ev["changed_ppb"] = ppb(max(dv, dw))
+            evs.append(ev)
+        except Exception as ex:
+            ev["raised"] = True; ev["exc"] = repr(ex)[:200]
+            evs.append(ev)
     else:
         n, ch = c["n"], tuple(c["chunks"])
         vals = np.array([0.5 * i - 1.25 for i in range(n)])
@@ -134,7 +163,7 @@ def self_test(ctx: Ctx):
 def run(ctx: Ctx):
     quick = ctx.tier == "quick"
     ctx.rule = ("uniform(lo, hi, n, endpoint) and gaussian(sigma, n, center, limit, normalize; 1-D and 2-D) over a rational lattice, "
-                "divide() over every chunking, negation of every distribution; all cases enumerated by TLC from DistImpl; "
+                "anisotropic 2-D Gaussians (joint weights against the outer product of the per-axis weights), stability of an existing distribution under later creations, divide() over every chunking, negation of every distribution; all cases enumerated by TLC from DistImpl; "
                 "non-trivial = n >= 2")
     r = ctx.design_check("MCDist", cfg_text=CFG.format(n=5 if quick else 7), label="DistImpl=>Distributions", workers=1, timeout=3000)
     self_test(ctx)
